@@ -48,6 +48,7 @@ type c10In struct {
 	Env      map[string]string `json:"env,omitempty"`   // extra environment (child only)
 	Child    bool              `json:"child,omitempty"` // run in a child process under a watchdog (possible cycles)
 	HasExp   bool              `json:"has_exp,omitempty"`
+	NoImp    bool              `json:"noimp,omitempty"` // a soup without import directives: judged with the proved fuel (kind 1)
 	Expected []c10EBlock       `json:"expected,omitempty"` // what the generating AST says
 }
 
@@ -654,7 +655,11 @@ func c10Run(in0 interface{}) Result {
 	for i, n := range names {
 		nameT = append(nameT, cPair(cN(uint64(i+1)), cRunes(n)))
 	}
-	term := cApp("CParseAt", cRunes(res.dir), cList(nameT), "0", c10EnvTerm(in.Env), cN(c10Cap), cRunes(res.in.Main), c10FilesTerm(res.in, names), globs, c10ObsTerm(o), c10ExpTerm(in))
+	kind := "0"
+	if in.NoImp {
+		kind = "1" // C10_parse_total_no_imports: fuel tokens+4, the real import bound
+	}
+	term := cApp("CParseAt", cRunes(res.dir), cList(nameT), kind, c10EnvTerm(in.Env), cN(c10Cap), cRunes(res.in.Main), c10FilesTerm(res.in, names), globs, c10ObsTerm(o), c10ExpTerm(in))
 	nblocks := len(o.Blocks)
 	return Result{Term: term, Obs: o, Sig: sig, Direct: direct,
 		Nontrivial: in.HasExp || in.Child || (o.Class == "ok" && nblocks > 0) || len(in.Files) > 0, Class: in.Tag + ":" + o.Class}
@@ -1093,8 +1098,10 @@ func c10Gen(r *Rand, tier string) []interface{} {
 		nLong = 320
 	}
 	nLex, nRaw, nAst, nMal, nCyc, nNest := 600, 450, 560, 200, 12, 80
+	nSoup := 300
 	if tier == "thorough" {
 		nLex, nRaw, nAst, nMal, nCyc, nNest = 10000, 9000, 12000, 4000, 120, 1500
+		nSoup = 5000
 	}
 	alpha := []string{"a", "b", "c", " ", " ", "\t", "\n", "\n", "\r", "\"", "\"", "\\", "#", "{", "}", ",", " ", " ", "é", "\xff", "\v", "x", " ", " "}
 	for i := 0; i < nLex; i++ {
@@ -1149,6 +1156,33 @@ func c10Gen(r *Rand, tier string) []interface{} {
 		if strings.Contains(all, "import") || strings.Contains(all, "V_IMP") {
 			in.Child = true
 			in.Text = "soup"
+		}
+		out = append(out, in)
+	}
+	// arbitrary token soups WITHOUT import directives (no `import`, no reference expanding to it): mostly
+	// ill-formed - unbalanced and stray braces, commas, snippet heads, empty and unterminated quotes,
+	// references expanding to a brace, to nothing, to line breaks.  Judged for the result class (blocks
+	// and every token, or the error class) against the model run with the PROVED fuel tokens+4 and the
+	// implementation's own import bound (C10_parse_total_no_imports / C10_soup_reference_total): the
+	// model may answer nothing but blocks or an error class, and the implementation must answer the same
+	niWords := []string{"a.com", "b.com,", "dir1", "dir2", "arg", "{", "}", "{", "}", "{", "}", "\"q w\"", "\"multi\nline\"", "x,", "{$V_A}", "{%V_E%}", "{$V_UNSET}", "#c", "\n", "\n", "\n", "\n",
+		"imports", "Import", "(sn)", "(sn)", "(t)", "(sn),", "sn", "\"\"", "\"unterminated", "\\", ",", "{$V_BR}", "{$V_BR}", "{$V_F}", "[x]", "{$V_NL}", "\"multi\n{$V_A}line\"", "\"{$V_E}\nx\"", "\"}\"", "\"{\"", "}}", "{{", "{}", "\ufeff", "{$V_REC}", "{$V_LOOP}"}
+	for i := 0; i < nSoup; i++ {
+		var sb strings.Builder
+		for k := r.Range(0, 45); k > 0; k-- {
+			sb.WriteString(r.Pick(niWords))
+			sb.WriteString(r.Pick([]string{" ", " ", "\n", "\n", "\t", ""}))
+		}
+		in := &c10In{Kind: "parse", Tag: "soup-noimport", Main: sb.String(), NoImp: true}
+		hasImport := false
+		for _, t := range c10Lex(in.Main) { // glued words cannot give the token `import`, but stay safe
+			hasImport = hasImport || t == "import"
+		}
+		if hasImport {
+			continue
+		}
+		if r.Chance(30) {
+			in.Files = map[string]string{"inc1.conf": "dir1 x\n"}
 		}
 		out = append(out, in)
 	}
@@ -1382,7 +1416,7 @@ func init() {
 	}
 	register(&Property{
 		ID: "C10", Imports: "V.Lib V.C10_Model", Judge: "judge", Shard: 120,
-		Rule: "lexer: random rune strings over a quote/escape/comment/space alphabet (incl. BOM, NBSP, U+2028, invalid UTF-8) through NewDispenser; parser: token soups with importable files, sub-directories and snippets around them through casketfile.Parse (panic capture + watchdog, child process when an import cycle is possible); random ASTs (blocks, keys, directives, quoted/escaped/multi-line/env args, sub-blocks nested to depth 3) rendered with random layout and a random partition into imported files (nested to depth 4, sub-directories, glob groups, env-expanded patterns, whole sites), snippets (incl. snippets importing snippets with directives before and after the inner import, consecutive imports, definitions in inner-first / outer-first / shuffled order and sharing physical lines, and a snippet file), arguments incl. multi-line quoted tokens holding environment references followed by further arguments, and a family with very long comment lines (4094-16000 bytes, at line ends and on lines of their own, in main / imported files / snippet bodies) — the model parses the SAME files through a glob/file oracle and must give the same keys and (file, line, text) tokens or the same error class, and the output must equal the generating AST in texts and line structure; damaged renderings (malformed block structure); generated import cycles of length 1-4 at directive, sub-block and top level; import trees over several directories (every site in its own directory, same-named files of different content, the same relative import argument written in files of different directories, ./ ../ sub-directory, env-expanded and absolute paths, sites through a glob) whose output must equal the generating AST; every parser case carries the place of every file and the kernel checks filepath.Glob's answers for literal patterns against the model's resolution rule; non-trivial = >=2 tokens / parsed blocks / every AST, file or cycle case",
+		Rule: "lexer: random rune strings over a quote/escape/comment/space alphabet (incl. BOM, NBSP, U+2028, invalid UTF-8) through NewDispenser; parser: token soups WITHOUT import directives (mostly ill-formed: stray and unbalanced braces, commas, snippet heads, unterminated quotes, references expanding to a brace / nothing / line breaks) judged against the model run with the PROVED fuel tokens+4 and the real import bound (kind 1 cases: the model must answer blocks or an error class and the implementation the same); token soups with importable files, sub-directories and snippets around them through casketfile.Parse (panic capture + watchdog, child process when an import cycle is possible); random ASTs (blocks, keys, directives, quoted/escaped/multi-line/env args, sub-blocks nested to depth 3) rendered with random layout and a random partition into imported files (nested to depth 4, sub-directories, glob groups, env-expanded patterns, whole sites), snippets (incl. snippets importing snippets with directives before and after the inner import, consecutive imports, definitions in inner-first / outer-first / shuffled order and sharing physical lines, and a snippet file), arguments incl. multi-line quoted tokens holding environment references followed by further arguments, and a family with very long comment lines (4094-16000 bytes, at line ends and on lines of their own, in main / imported files / snippet bodies) — the model parses the SAME files through a glob/file oracle and must give the same keys and (file, line, text) tokens or the same error class, and the output must equal the generating AST in texts and line structure; damaged renderings (malformed block structure); generated import cycles of length 1-4 at directive, sub-block and top level; import trees over several directories (every site in its own directory, same-named files of different content, the same relative import argument written in files of different directories, ./ ../ sub-directory, env-expanded and absolute paths, sites through a glob) whose output must equal the generating AST; every parser case carries the place of every file and the kernel checks filepath.Glob's answers for literal patterns against the model's resolution rule; non-trivial = >=2 tokens / parsed blocks / every AST, file or cycle case",
 		Gen:    c10Gen,
 		Decode: func(raw json.RawMessage) (interface{}, error) {
 			in := &c10In{}
